@@ -7,7 +7,7 @@ explicit fields of one value that lose their relative numbering."""
 import bisect
 import re
 
-from .. import core, gen_abbr, outparse, probes
+from .. import core, gen_abbr, hostile, outparse, probes
 
 ID = 'C13'
 RULE = ('cases = (abbreviation with and without explicit ${n:ph} fields, syntax, newline string, indent, baseIndent, callback behaviour); markup syntaxes '
@@ -166,7 +166,7 @@ class Mon:
     def __init__(self, ctx):
         import emmet
         self.ctx = ctx
-        self.expand = emmet.expand
+        self.expand = hostile.wrap(emmet.expand, ctx)
 
     def check(self, abbr, cfg_base, mode, flags, cls):
         ctx = self.ctx
@@ -284,12 +284,10 @@ def run_shard(desc, ctx):
         st = frame.f_locals.get('state')
         if st is None:
             return
-        ctx.mon('probe:field-monotone')
-        prev = fields.get(id(st))
-        if prev is not None and prev[0] is st and st.field < prev[1]:
-            ctx.anomaly('probe:field-decreased', {'probe': 'push_tokens', 'before': prev[1], 'after': st.field})
-        fields.clear()
-        fields[id(st)] = (st, st.field)
+        # (the counter is no invariant any more: since repair 8126f6b the lines of a multi-line value are pushed one by one, each from the
+        # same base, so it legitimately steps back between the lines of one value; the probe only counts the values it saw)
+        ctx.mon('probe:field-counter-seen')
+        ctx.state('field-counter', str(min(st.field, 40)))
 
     pr = probes.Probes().add('emmet.output_stream:OutputStream._push', None, push_return) \
         .add('emmet.markup.format.utils:push_tokens', None, tokens_return).add('emmet.output_stream:OutputStream.push_field').install()
